@@ -13,7 +13,7 @@ from harness import creators as cr
 import refconc
 
 PROPERTY = "C17"
-MODULES = ["edit"]
+MODULES = ["edit", "commands"]
 FAULTS = ["crash", "eperm", "enospc", "short", "shortret"]
 ASSUMPTIONS = [
     "fault model on the abstract filesystem: whatever mutating calls edit_torrent makes (remove/open/write/rename/"
@@ -52,6 +52,11 @@ def jobs(tier):
         out.append(("comment.%s.v1.hardlinked" % kind, "job_fault", dict(req="comment", kind=kind, version=1, linked=True)))
     for version in (1, 3):
         out.append(("edit-after-killed-edit.v%d" % version, "job_after_killed", dict(version=version, killed=True)))
+        out.append(("edit-after-killed-mid-write.v%d.cli" % version, "job_after_killed", dict(version=version, killed=True, kind="short", route2="cli")))
+    out.append(("edit-after-killed-edit.v1.cli", "job_after_killed", dict(version=1, killed=True, kind="crash", route2="cli")))
+    out.append(("edit-after-killed-mid-write.v1", "job_after_killed", dict(version=1, killed=True, kind="short", route2="lib")))
+    for n in (255, 254, 251, 250):
+        out.append(("long-name-%d.v1" % n, "job_long_name", dict(version=1, namelen=n)))
     out.append(("unencodable.v1", "job_unencodable", dict(version=1)))
     out.append(("unencodable.v3", "job_unencodable", dict(version=3)))
     return out
@@ -130,7 +135,7 @@ def _show(got):
     return repr(got)[:80]
 
 
-def job_after_killed(E, version, killed=True, _mutants=None):
+def job_after_killed(E, version, killed=True, kind="crash", route2="lib", _mutants=None):
     """An edit is killed at an arbitrary operation (whatever it leaves behind - such as its scratch file - stays),
     then a later, undisturbed edit by a new process: the metafile must be the complete result of that edit.
     Encoded lengths are solver variables, so 'the later result is shorter than what was left behind' is covered."""
@@ -150,7 +155,7 @@ def job_after_killed(E, version, killed=True, _mutants=None):
         for v in r.values():
             if isinstance(v, OStr):
                 v._nonempty = True
-    fs.fault = FaultPlan(E.int("fault_at", 0, 6), "crash")
+    fs.fault = FaultPlan(E.int("fault_at", 0, 6), kind)
     try:
         _run(w1, req1)
     except Crash:
@@ -167,7 +172,12 @@ def job_after_killed(E, version, killed=True, _mutants=None):
     w2.track_lengths = True
     w2.benlens = w1.benlens
     try:
-        _run(w2, req2)
+        if route2 == "cli":
+            import types as _types
+            w2.mod("commands").edit(_types.SimpleNamespace(metafile=MPATH, url_list=None, httpseeds=None, announce=None, source=None,
+                                                           private=False, comment=req2["comment"]))
+        else:
+            _run(w2, req2)
     except Unsupported:
         raise
     except Exception as ex:  # noqa: BLE001
@@ -177,6 +187,34 @@ def job_after_killed(E, version, killed=True, _mutants=None):
     if E.check(isinstance(got, dict), "C17.after-killed-edit.complete",
                "an undisturbed edit after a killed one left %s at the metafile path" % (_show(got),)):
         E.check(got.get("info", {}).get("comment") is req2["comment"], "C17.after-killed-edit.is-the-edit")
+    for k in WITNESSES:
+        E.witnesses.setdefault(k, True)
+
+
+def job_long_name(E, version, namelen, _mutants=None):
+    """A metafile whose file name is at (or just below) the 255-byte limit of a directory entry: an edit that fails -
+    because a value cannot be encoded, or because no scratch name fits - leaves the complete original; one that
+    succeeds leaves the complete result."""
+    path = "/t/" + "m" * (namelen - 8) + ".torrent"
+    base = ew.base_meta(E, version, _force({"comment": 1}))
+    fs = AFS()
+    fs.add_token(path, BenTok(ben_copy(base)))
+    w = World(fs, mutants=_mutants)
+    bad = E.choice("unencodable", 2)
+    req = {"comment": 1.5} if bad else ew.request(E, {"comment": "str"})
+    raised = None
+    try:
+        w.mod("edit").edit_torrent(path, dict(req))
+    except Unsupported:
+        raise
+    except Exception as ex:  # noqa: BLE001
+        raised = type(ex).__name__
+    got = ew.file_obj(fs, path)
+    if raised is not None:
+        E.check(isinstance(got, dict) and ben_equal(got, base), "C17.long-name.failed-edit-keeps-original",
+                "edit of a %d-byte file name raised %s and left %s" % (namelen, raised, _show(got)))
+    else:
+        E.check(isinstance(got, dict), "C17.long-name.complete", "edit of a %d-byte file name left %s" % (namelen, _show(got)))
     for k in WITNESSES:
         E.witnesses.setdefault(k, True)
 
@@ -225,18 +263,21 @@ def _replay_killed(params, model, workdir):
         "import sys, os, builtins\n"
         "sys.path.insert(0, %r)\n"
         "n = [0]\n"
-        "def point():\n"
+        "KIND = %r\n"
+        "def point(f=None, d=None):\n"
         "    if n[0] == %d:\n"
+        "        if KIND == 'short' and f is not None:\n"
+        "            f.write(d[:len(d) // 2]); f.flush()\n"
         "        os._exit(9)\n"
         "    n[0] += 1\n"
         "ro, rr, rp, rn, oo = builtins.open, os.remove, os.replace, os.rename, os.open\n"
         "class W:\n"
         "    def __init__(s, f): s.f = f; s.p = []\n"
         "    def write(s, d):\n"
-        "        if len(d) >= 4096: s.flush(); point(); s.f.write(d); return len(d)\n"
+        "        if len(d) >= 4096: s.flush(); point(s.f, d); s.f.write(d); return len(d)\n"
         "        s.p.append(bytes(d)); return len(d)\n"
         "    def flush(s):\n"
-        "        if s.p: d = b''.join(s.p); s.p = []; point(); s.f.write(d)\n"
+        "        if s.p: d = b''.join(s.p); s.p = []; point(s.f, d); s.f.write(d)\n"
         "    def close(s): s.flush(); s.f.close()\n"
         "    def fileno(s): return s.f.fileno()\n"
         "    def __enter__(s): return s\n"
@@ -253,15 +294,28 @@ def _replay_killed(params, model, workdir):
         "    return g\n"
         "builtins.open = fo; os.open = foo; os.fdopen = fdo; os.remove = os.unlink = w1(rr); os.replace = w1(rp); os.rename = w1(rn)\n"
         "from torrentfile.edit import edit_torrent\n"
-        "edit_torrent(sys.argv[1], {'comment': sys.argv[2]})\n" % (repo, at))
+        "edit_torrent(sys.argv[1], {'comment': sys.argv[2]})\n" % (repo, params.get("kind", "crash"), at))
     subprocess.run([sys.executable, "-c", child, mpath, "k" * L("reqk1.comment")], capture_output=True, cwd=workdir)
     if not os.path.exists(mpath):
         return ["C17.complete-after-fault (metafile missing after the killed edit)"]
     mods = cr.real_torrentfile()
     want2 = "n" * L("reqk2.comment")
     try:
-        mods["torrentfile.edit"].edit_torrent(mpath, {"comment": want2})
+        if params.get("route2") == "cli":
+            import types as _types
+            import io as _io
+            import contextlib as _cl
+            with _cl.redirect_stdout(_io.StringIO()):
+                mods["torrentfile.commands"].edit(_types.SimpleNamespace(metafile=mpath, url_list=None, httpseeds=None, announce=None,
+                                                                        source=None, private=False, comment=want2))
+        else:
+            mods["torrentfile.edit"].edit_torrent(mpath, {"comment": want2})
     except Exception as ex:  # noqa: BLE001
+        data = open(mpath, "rb").read() if os.path.exists(mpath) else b""
+        try:
+            refconc.bdecode_strict(data)
+        except refconc.BencodeError:
+            return ["C17.after-killed-edit.complete (second edit raised %s and the metafile holds %d undecodable bytes)" % (type(ex).__name__, len(data))]
         return ["C17.after-killed-edit.no-exception: %s: %s" % (type(ex).__name__, ex)]
     data = open(mpath, "rb").read()
     try:
@@ -281,6 +335,30 @@ def replay(params, model, notes, workdir, seed):
     from harness import c07
     if params.get("killed"):
         return _replay_killed(params, model, workdir)
+    if "namelen" in params:
+        from harness import c07 as _c07
+        base = _c07.conc_base(params["version"], model)
+        mpath = os.path.join(workdir, "m" * (params["namelen"] - 8) + ".torrent")
+        old_bytes = refconc.bencode(base)
+        with open(mpath, "wb") as f:
+            f.write(old_bytes)
+        mods = cr.real_torrentfile()
+        req = {"comment": 1.5} if int(model.get("unencodable", 0)) else {"comment": "changed"}
+        raised = None
+        try:
+            mods["torrentfile.edit"].edit_torrent(mpath, dict(req))
+        except Exception as ex:  # noqa: BLE001
+            raised = ex
+        if not os.path.exists(mpath):
+            return ["C17.long-name (metafile gone after %r)" % (raised,)]
+        got = open(mpath, "rb").read()
+        if raised is not None:
+            return [] if got == old_bytes else ["C17.long-name.failed-edit-keeps-original"]
+        try:
+            refconc.bdecode_strict(got)
+        except refconc.BencodeError as ex:
+            return ["C17.long-name.complete (%s)" % ex]
+        return []
     version = params["version"]
     base = c07.conc_base(version, model)
     mpath = os.path.join(workdir, "m.torrent")
